@@ -97,6 +97,8 @@ var catalogue = []namedDecl{
 	{"time", "time", "Time", false, false, false, 0, false, true, ""},
 	{"os", "os", "File", false, false, false, 0, false, false, ""},
 	{pkgSrc, "src", "Local", false, false, false, 0, false, true, "type Local struct{ X int }"},
+	{pkgSrc, "src", "Byte", false, false, false, 0, false, true, "type Byte uint8"},
+	{pkgSrc, "src", "Rune", false, false, false, 0, false, true, "type Rune int32"},
 	{pkgSrc, "src", "LocalI", false, true, false, 0, true, true, "type LocalI interface{ L() }"},
 	{pkgSrc, "src", "LocalS", false, true, true, 0, false, false, "type LocalS []string"},
 	{pkgSrc, "src", "LocalG", false, false, false, 1, false, true, "type LocalG[X any] struct{ V X }"},
